@@ -82,6 +82,7 @@ type KCase struct {
 	Boxes  []string `json:"boxes"`
 	Prefix []hx.Op  `json:"prefix"`
 	Target Target   `json:"target"`
+	Cap2   int      `json:"cap2,omitempty"` // as in Case
 }
 
 // kview is a mailbox as a reader sees it, without ids (the child issues the new one).
@@ -147,7 +148,7 @@ var propKill = hx.Prop[KCase]{
 	Quick: 20, Thorough: 200,
 	Gen: func(t *rapid.T) KCase {
 		c := prop.Gen(t)
-		return KCase{Cap: c.Cap, Boxes: c.Boxes, Prefix: c.Prefix, Target: c.Target}
+		return KCase{Cap: c.Cap, Boxes: c.Boxes, Prefix: c.Prefix, Target: c.Target, Cap2: c.Cap2}
 	},
 	Run: runKill,
 }
@@ -184,7 +185,11 @@ func runKill(c KCase) *hx.Outcome {
 	if (kind == "seen" || kind == "remove") && len(live) == 0 {
 		kind = "add"
 	}
-	spec := childSpec{Cap: c.Cap, K: kind, Box: box}
+	capT := c.Cap
+	if c.Cap2 > 0 && kind == "add" {
+		capT = c.Cap2 // the server was restarted with another cap before this delivery
+	}
+	spec := childSpec{Cap: capT, K: kind, Box: box}
 	post := append([]kmsg{}, pre[box]...)
 	label := kind
 	switch kind {
@@ -194,9 +199,13 @@ func runKill(c KCase) *hx.Outcome {
 			spec.Size = 9000
 		}
 		post = append(post, kmsg{targetSubject, false, strings.Repeat("K", spec.Size)})
-		if c.Cap > 0 && len(post) > c.Cap {
-			post = post[len(post)-c.Cap:]
-			label = "add-at-cap"
+		if capT > 0 && len(post) > capT {
+			if len(post) > capT+1 {
+				label = "add-over-lowered-cap"
+			} else {
+				label = "add-at-cap"
+			}
+			post = post[len(post)-capT:]
 		}
 	case "seen":
 		j := c.Target.N % len(live)
@@ -250,7 +259,7 @@ func runKill(c KCase) *hx.Outcome {
 			}
 			evals++
 			where := fmt.Sprintf("target %s on %q, process killed on entry to its %d. %s", label, box, n, strings.SplitN(fam, ",", 2)[0])
-			st := hx.NewFile(extension.NewHost(), d, c.Cap)
+			st := hx.NewFile(extension.NewHost(), d, capT)
 			if err := st.VisitMailboxes(func([]storage.Message) bool { return true }); err != nil {
 				o.Failf(pid+":unreadable-after-crash", "%s: VisitMailboxes on the restarted store: %v", where, err)
 				return o
